@@ -145,6 +145,35 @@ TEXT = {
         "note": COMMON_NOTE + " goleveldb's iterator-is-a-snapshot property is assumed by the machine and checked from outside by the correspondence run.",
         "technique": "Lean 4 proof (invariant over all interleavings of scan steps and writes); write-injecting scan replay against the machine",
     },
+    "C08": {
+        "level": "Theorems about the disk storage as a machine of atomic disk steps (write temp definition, rename, remove / open the database directory, one row write, remove definition) with "
+                 "`view` = what a service started on the disk serves: for ANY disk meeting only the request's precondition (so: after any earlier program and crashes), after EVERY prefix of the "
+                 "step list of CreateTable / DeleteTable / SetTableMeta / Clear / a family drop, the table's view is the one before or the one after the request and all other tables are "
+                 "untouched; the temp file is never served; a restart changes nothing (hence any number of crash-restart cycles); plus the negative theorem that the pre-repair Create order "
+                 "served leftovers. Tied to the code by copying the real directory at every request boundary and at every verifCrashPoint hit, starting a fresh service on each image and "
+                 "comparing ListTables/GetTable/ReadRows of every table with the Lean Model's state before/after the request; some runs continue on the image (repeated cycles).",
+        "note": COMMON_NOTE + " Atomic rename/unlink and goleveldb durability/recovery are assumed; machine crashes (lost page cache, torn sectors) are not modelled.",
+        "technique": "Lean 4 proof (crash-prefix case analysis over disk-step plans, for arbitrary leftover disk states); crash-image replay of the real on-disk engine against the Model",
+    },
+    "C09": {
+        "level": "Theorems: the abstraction from what the file store keeps on disk (content file with its modification time, optional .emumeta sidecar) to the memory store's object list commutes "
+                 "with lookup, Add, UpdateMeta, Delete and Copy, hence with every sequence of store operations (induction over programs): both stores hold the same objects up to the concrete "
+                 "generation numbers; a content file without sidecar is served with derived metadata. Persistence: the on-disk data is all the state (structural fact on the filestore struct, "
+                 "checked on every run). Tied to the code by running every generated program on both stores against the one Model, with re-opens of the directory at request boundaries and "
+                 "hand-planted sidecar-less files.",
+        "note": COMMON_NOTE + " The name<->path mapping and the directory structure are not modelled (representable names only).",
+        "technique": "Lean 4 proof (refinement: abstraction function commutes with every store operation; induction over programs); two-store differential correspondence with restarts",
+    },
+    "C20": {
+        "level": "PARTIAL. Theorems: Go's partial operations (slice, index, sort.Search) are modelled explicitly and the emulators' functions that slice or index with bounds computed from request "
+                 "data (DeleteFromColumn range removal, GC max-age / max-versions, the three cell-count filters, the 8-byte RMW decode, prefix comparison, resumable truncation, compose / rewrite "
+                 "path splitting, batch Content-ID) are proved never to fault for EVERY input (negative counts do fault: that is why they are validated up front). The inventory of such sites is "
+                 "regenerated from the source on every run and compared. Everything a sequential model cannot exhibit is SEARCHED, not proved: structure-aware perturbation of valid requests to "
+                 "every endpoint / RPC with a probe after each (no panic, no hang, well-formed response, stored data intact), batch parts compared with the same requests sent alone, a concurrent "
+                 "admin/data mix in a child process (a fatal runtime error or, in the thorough tier, a data race kills it), plus the lock-discipline facts.",
+        "note": COMMON_NOTE + " This property is claimed as partial: absence of races, hangs and leaks is not a theorem.",
+        "technique": "Lean 4 proof of fault-freedom for the modelled partial operations + regenerated site inventory; structure-aware fuzzing and concurrent mix as search (not proof)",
+    },
 }
 
 NOT_APPLICABLE = {("C%02d" % i): "check not built yet in this session (work in progress; see DESIGN.md section 8)" for i in range(1, 21)}
